@@ -87,7 +87,7 @@ def nontrivial_type(ty):
 def make_cases(ctx):
     cases = []
     r = ctx.sub_rng('sys')
-    g = Gen(r, {'neg_timedelta': True, 'nonfinite': True, 'ext_names': 0.3, 'wild_names': 0.1, 'same_named_enums': 0.3})
+    g = Gen(r, {'neg_timedelta': True, 'nonfinite': True, 'ext_names': 0.3, 'wild_names': 0.1, 'same_named_enums': 0.3, 'name_families': 0.3, 'spellings': 0.3})
     items = systematic_types(g, 3)
     d3 = [it for it in items if it[0].count('<') == 2]
     rest = [it for it in items if it[0].count('<') < 2]
@@ -134,7 +134,7 @@ def make_cases(ctx):
     n = 120 if ctx.tier == 'quick' else 2500
     for j in range(n):
         g2 = Gen(r2, {'neg_timedelta': True, 'nonfinite': r2.random() < 0.3, 'extreme_dates': False,
-                      'odd_offsets': r2.random() < 0.15, 'ext_names': 0.3, 'wild_names': 0.15, 'same_named_enums': 0.3,
+                      'odd_offsets': r2.random() < 0.15, 'ext_names': 0.3, 'wild_names': 0.15, 'same_named_enums': 0.3, 'name_families': 0.3, 'spellings': 0.3,
                       'subclasses': 0.25 if j % 4 == 3 else 0})
         nf = r2.choice([1, 2, 3, 5])
         tys = [g2.rand_type(r2.choice([1, 2, 3])) for _ in range(nf)]
